@@ -36,7 +36,11 @@
    (1) signal comments: None is read as "" (before: comments were compared only when both were present, so an
        added or removed signal comment was never reported);
    (2) receivers: both sides stripped (before: `receiver.strip() not in s2.receivers`, so a receiver with
-       surrounding white space was reported removed and added when a signal was compared with itself). *)
+       surrounding white space was reported removed and added when a signal was compared with itself).
+   and compare_db AFTER the repair proposed in /verif/fixes/C13_frame_pairing.patch:
+   (3) a frame without partner by name is paired by identifier only with a frame that has no partner by name
+       itself (before: any frame carrying the identifier, so one frame could be compared twice while another was
+       neither compared nor reported as added: {Q(1)} vs {P(1), Q(2)} never mentioned P). *)
 From CM Require Import lib.Prelude.
 
 (* ------------------------------------------------------------------ normal form *)
@@ -280,16 +284,27 @@ Definition compare_db_raw (ign : ignore) (db1 db2 : matrix) : option cres :=
           | Some f2 => compare_frame ign f1 f2
           | None => match frame_by_id f1 db2 with
                     | None => Some (leaf RDeleted TFRAME (fr_name f1))
-                    | Some f2id => compare_frame ign f1 f2id
+                    | Some f2id =>
+                        (* paired by identifier only with a frame that has no partner by name itself *)
+                        match frame_by_name (fr_name f2id) db1 with
+                        | Some _ => Some (leaf RDeleted TFRAME (fr_name f1))
+                        | None => compare_frame ign f1 f2id
+                        end
                     end
           end) (m_frames db1)) with
   | None => None
   | Some framekids =>
     Some (Node RNone TNone (-1)
       (framekids
-       ++ flat_map (fun f2 => match frame_by_name (fr_name f2) db1, frame_by_id f2 db1 with
-                              | None, None => [leaf RAdded TFRAME (fr_name f2)]
-                              | _, _ => []
+       ++ flat_map (fun f2 => match frame_by_name (fr_name f2) db1 with
+                              | Some _ => []
+                              | None => match frame_by_id f2 db1 with
+                                        | None => [leaf RAdded TFRAME (fr_name f2)]
+                                        | Some f1id => match frame_by_name (fr_name f1id) db2 with
+                                                       | Some _ => [leaf RAdded TFRAME (fr_name f2)]
+                                                       | None => []
+                                                       end
+                                        end
                               end) (m_frames db2)
        ++ (if ig_attr ign then [] else [compare_attributes ign (-1) (m_attrs db1) (m_attrs db2)])
        ++ map (fun e1 => match ecu_by_name (ec_name e1) db2 with
